@@ -56,6 +56,19 @@ Theorem gen_shutdown_never_restarted_v2 : forall r f rec,
   f_shutdown f = true -> decide gen_v2_arms r f rec <> Restart /\\ enters_recovery gen_v2_arms r f = false.
 Proof. apply shutdown_generic. vm_compute. reflexivity. Qed.
 """,
+    "gen_repairs_in_place": """
+From Verif Require Import Life.RunMap.
+From VerifGen Require Import GenLifecycle.
+(* the repaired variant of the model ([repaired], used by the acceptor and the positive theorems) is the variant
+   the source tree implements: the node / worker goroutines Kill the tomb before their deferred Done() (2f2ec4f),
+   the arch-v2 force stop also stores intentionalStop (9382932), the cleanup's map delete is a compare-and-delete
+   in both engines (838f9f1) *)
+Theorem gen_repairs_in_place :
+  gen_v1_sync_kill = f_sync_kill repaired /\\ gen_v2_sync_kill = true
+  /\\ gen_v2_force_intent = f_force_intent repaired
+  /\\ gen_v1_compare_and_delete = true /\\ gen_v2_compare_and_delete = f_cad repaired.
+Proof. vm_compute. repeat split; reflexivity. Qed.
+""",
     "gen_transient_recovers": """
 From Verif Require Import Life.Classify Life.ClassifyProofs.
 From VerifGen Require Import GenLifecycle.
@@ -112,6 +125,13 @@ def candidate_inputs():
         out.append({"cfg": _cfg(e), "steps": pre + [_s("hold", "dst.write"), _s("emit", n=1), _s("await", "arrive:dst.write", n=10000),
                     _s("call", "stopall"), _s("script", "dst.write", "err"), _s("release", "dst.write")] + post, "shape": "cand-shutdown-drain"})
         out.append({"cfg": _cfg(e), "steps": pre + [_s("script", "src.read", "err"), _s("emit", n=1)] + post, "shape": "cand-transient"})
+        out.append({"cfg": _cfg(e, dlq_size=1, dlq_thr=0), "steps": pre + [_s("hold", "proc.do"), _s("emit", n=1),
+                    _s("await", "arrive:proc.do", n=10000), _s("call", "stopall"), _s("script", "proc.do", "err"), _s("release", "proc.do")] + post,
+                    "shape": "cand-shutdown-then-fatal"})
+        out.append({"cfg": _cfg(e), "steps": pre + [_s("hold", "src.td"), _s("call", "force"), _s("await", "arrive:src.td", n=10000),
+                    _s("call", "stopall"), _s("release", "src.td")] + post, "shape": "cand-force-then-shutdown"})
+        out.append({"cfg": _cfg(e), "steps": pre + [_s("hold", "src.td"), _s("script", "dst.write", "err"), _s("emit", n=1),
+                    _s("await", "arrive:src.td", n=10000), _s("call", "force"), _s("release", "src.td")] + post, "shape": "cand-force-loses-kill-race"})
     return out
 
 
